@@ -6,6 +6,7 @@ import (
 	"math/rand"
 	"net"
 	"path/filepath"
+	"sync"
 	"time"
 
 	"github.com/pegnet/pegnetd/config"
@@ -180,6 +181,34 @@ func c01Replica(j *orch.Job, r *orch.Result) error {
 			return nil
 		}
 	}
+	if p.Replica%3 == 1 {
+		// this replica's factomd hiccups: every 29th entry request fails once (the block is retried as a whole);
+		// which entries the parallel fetch has already got by then depends on goroutine scheduling
+		prev := ro.OnNode
+		ro.OnNode = func(n *harness.Node) {
+			if prev != nil {
+				prev(n)
+			}
+			var mu sync.Mutex
+			cnt := 0
+			failed := map[string]bool{}
+			n.Fake.SetFault(func(rq harness.Req) harness.Fault {
+				if rq.Method != "raw-data" {
+					return harness.Fault{}
+				}
+				mu.Lock()
+				defer mu.Unlock()
+				cnt++
+				k := fmt.Sprint(rq.Cur) // at most one failure per block: the retry must get through
+				if cnt%29 == 0 && !failed[k] {
+					failed[k] = true
+					r.Count("entry_requests_failed_once", 1)
+					return harness.Fault{Kind: harness.RPCError}
+				}
+				return harness.Fault{}
+			})
+		}
+	}
 	res, err := Replay(c, ro)
 	if err != nil {
 		return err
@@ -198,6 +227,7 @@ func checkC01(c *Ctx) *orch.Outcome {
 		"(plus oversubscribed bank rows and >100-entry blocks, counted separately). Distinct = (chain seed, replica configuration)."
 	o.Assumptions = []string{
 		"schedules and hash seeds are sampled (fresh processes, GOMAXPROCS 1/2/16, randomized upstream response delays, TZ), not enumerated",
+		"every third replica's fake factomd fails every 29th entry request once (the block is retried)",
 		"every third replica also answers read-only API requests (rich lists, issuance, rates, sync status) between blocks, one at a time",
 		"averaging window shortened to 12 blocks (node.AveragePeriod) so that PIP-10 conversions execute in compressed chains",
 		"era heights compressed (order and equalities of mainnet kept)",
